@@ -66,6 +66,10 @@ pub struct Case {
     /// WriteMode::SupportCapture (duplicates are written with print!/eprint!) instead of Direct
     #[serde(default)]
     pub support_capture: bool,
+    /// (child-process cases) file descriptor 2 is closed before the first record: every write of
+    /// a duplicate to stderr fails; the other outputs must get their records all the same
+    #[serde(default)]
+    pub close_stderr: bool,
 }
 
 pub struct P;
@@ -308,8 +312,16 @@ pub fn child_main(file: &Path) -> ! {
     let case: Case = read_case(file);
     let dir = file.parent().unwrap().join("childrun");
     let _ = std::fs::create_dir_all(&dir);
+    if case.close_stderr {
+        unsafe {
+            libc::close(2);
+        }
+    }
     match execute(&case, &dir, true) {
-        Ok(_) => crate::child::exit_now(0),
+        Ok(r) => {
+            let _ = std::fs::write(file.parent().unwrap().join("primary.txt"), r.primary.join("\n"));
+            crate::child::exit_now(0)
+        }
         Err(e) => {
             eprintln!("CHILD-ERROR {e}");
             crate::child::exit_now(7)
@@ -355,9 +367,13 @@ impl Property for P {
                 } else {
                     prop::option::weighted(0.3, proptest::sample::select(files)).boxed()
                 };
-                (Just(spec), Just(writers), steps_strat(names, dup.is_some()), Just(dup), faulty, prop::bool::weighted(0.3))
+                (Just(spec), Just(writers), steps_strat(names, dup.is_some()), Just(dup), faulty, prop::bool::weighted(0.3), prop::bool::weighted(0.25))
             })
-            .prop_map(|(spec, writers, steps, dup, faulty, support_capture)| Case { spec, writers, steps, dup, faulty, support_capture })
+            .prop_map(|(spec, writers, steps, dup, faulty, support_capture, close_stderr)| {
+                // (print!/eprint! panic on a closed stream: not with SupportCapture)
+                let close_stderr = close_stderr && dup.is_some() && !support_capture;
+                Case { spec, writers, steps, dup, faulty, support_capture, close_stderr }
+            })
             .boxed()
     }
 
@@ -481,7 +497,15 @@ impl Property for P {
             let lines = |b: &[u8]| -> Vec<String> { String::from_utf8_lossy(b).lines().map(str::to_string).collect() };
             let got_err = lines(&co.stderr);
             let got_out = lines(&co.stdout);
-            if got_err != exp_err {
+            if case.close_stderr {
+                out.class("stderr-closed");
+                let got_primary: Vec<String> = std::fs::read_to_string(sc.sub("primary.txt")).unwrap_or_default().lines().map(str::to_string).collect();
+                if got_primary != exp_primary {
+                    out.set_fail("default-channel-mismatch-with-failing-duplicate", format!("stderr closed (every duplicate to it fails): default channel got {got_primary:?}, expected {exp_primary:?}"));
+                    return out;
+                }
+            }
+            if !case.close_stderr && got_err != exp_err {
                 out.set_fail("stderr-duplicates-mismatch", format!("stderr got {got_err:?} expected {exp_err:?} (initial dup {:?})", case.dup));
                 return out;
             }
